@@ -47,11 +47,26 @@ class C02(Prop):
                 base = 0.0
             nb = rng.randint(1, 4)
             X = [[dyad(rng, 0, 8, 8) for _ in range(ns)] for _ in range(nb)]
+            if not any(X[0]):
+                X[0][0] = 1.0        # adapting to a background without any capture (and no baseline) is undefined: outside the property
             bg = [dyad(rng, 1, 8, 8) for _ in range(nd)]
-            cases.append({"dom": dom, "F": F, "S": S, "K": (K.tolist() if isinstance(K, np.ndarray) else K), "Kkind": kk,
+            # other physical units (e.g. photon flux): spectra and baseline 2^50 times larger, adaptation 2^50 times smaller -- exact rescaling
+            unit = 2.0 ** 50 if rng.random() < 0.15 else 1.0
+            if unit != 1.0:
+                S = [[v * unit for v in r] for r in S]; bg = [v * unit for v in bg]
+                base = (base * unit) if isinstance(base, np.ndarray) else base * unit
+                K = None if K is None else (K / unit)
+            # intensity bounds registered with the system (backgrounds may lie outside them) and sampled filters as uncertainty description
+            bounds = None
+            if rng.random() < 0.5:
+                bounds = {"lb": [rng.choice([0.0, 0.0, 0.5]) for _ in range(ns)], "ub": [rng.randint(4, 24) / 4 for _ in range(ns)]}
+            unc = None
+            if rng.random() < 0.2:
+                unc = [[[v * (1 + rng.randint(-8, 16) / 32) for v in row] for row in F] for _ in range(rng.randint(2, 5))]
+            cases.append({"dom": dom, "F": F, "S": S, "K": (K.tolist() if isinstance(K, np.ndarray) else K), "Kkind": kk, "unit": unit, "bounds": bounds, "unc": unc,
                           "baseline": (base.tolist() if isinstance(base, np.ndarray) else base), "bkind": bk,
                           "X": X, "bg": bg, "addb": rng.random() < 0.75, "decoy": rng.random() < 0.6,
-                          "kind": "K-%s/base-%s/%s" % (kk, bk, dk)})
+                          "kind": "K-%s/base-%s/%s%s%s%s" % (kk, bk, dk, "/unit2^50" if unit != 1.0 else "", "/bounds" if bounds else "", "/unc" if unc else "")})
         return cases
 
     def run_impl(self, case):
@@ -61,14 +76,15 @@ class C02(Prop):
         K = case["K"]; K = 1.0 if K is None else (np.array(K) if isinstance(K, list) else K)
         base = np.array(case["baseline"]) if isinstance(case["baseline"], list) else case["baseline"]
         def mk():
-            e = dreye.ReceptorEstimator(F, domain=dom, K=K, baseline=base)
+            e = dreye.ReceptorEstimator(F, domain=dom, K=K, baseline=base, **({} if case.get("unc") is None else {"filters_uncertainty": np.array(case["unc"])}))
             if case.get("decoy", True):
                 # a different system is registered and queried first: the answers below must depend
                 # only on the system registered last
                 e.register_system(S[::-1] * 0.5 + 0.25)
                 e.system_relative_capture(np.ones(S.shape[0])); e.system_capture(np.ones(S.shape[0]))
                 e.relative_capture(S[0])
-            e.register_system(S)
+            bd = case.get("bounds")
+            e.register_system(S, **({} if bd is None else {"lb": np.array(bd["lb"]), "ub": np.array(bd["ub"])}))
             return e
         est = mk()
         X = np.array(case["X"])
